@@ -130,14 +130,19 @@ def spec_copy():
 _tlc_seq = [0]
 
 
+_tlc_lock = threading.Lock()
+
+
 def run_tlc(module, cfg, workers=None, scn_out=None, env=None, simulate=None, depth=None, seed=None,
             timeout=1800, heap=None, coverage=False, extra=None, dfs=False, on_scn=None):
     """Runs TLC on spec/<module>.tla with spec/cfg/<cfg>.  SCN lines are unescaped and
     written to scn_out (one JSON document per line).  Returns TLCResult; raises
     Inconclusive on tool trouble."""
     d = spec_copy()
-    _tlc_seq[0] += 1
-    meta = os.path.join(sub("tlcmeta"), "m%d" % _tlc_seq[0])
+    with _tlc_lock:   # (several TLC runs side by side: two of them once shared a metadir, the first to end removed it)
+        _tlc_seq[0] += 1
+        my_seq = _tlc_seq[0]
+    meta = os.path.join(sub("tlcmeta"), "m%d" % my_seq)
     jopts = ["-XX:+UseParallelGC", "-Xss64m"]
     if heap:
         jopts.append("-Xmx" + heap)
